@@ -5,6 +5,7 @@ From Coq Require Import List Bool Arith ZArith Permutation Lia.
 From ADV Require Import Base.Num C04.Model C04.Spec C04.ProofsDet C04.ProofsBS C04.ProofsPerm C04.ProofsGJ.
 From ADV Require Import C04.ProofsGJ2 C04.ProofsGJ3 C04.ProofsGJ4 C04.ProofsSing C04.ProofsInv C04.ProofsDet2 C04.ProofsEx.
 From ADV Require Import C04.ProofsNaN C04.ProofsNaN2 C04.ProofsDet3.
+From ADV Require Import C04.Model2 C04.ProofsBuf C04.ProofsHist C04.ProofsPD.
 Import ListNotations.
 
 (* ---- (4) determinant ---- *)
@@ -300,9 +301,10 @@ Proof. exact inverse_ut_total. Qed.
 
 (* PositiveDefinite mode: (L L^T)^-1 through X = (L^T)^-1, R = X X^T.  HYPOTHESES about the Cholesky
    factor (the subject of C05, not proved here): L lower triangular with non-zero diagonal and
-   L * L^T = m.  The selection must be a LEADING BLOCK (prefix_mask n q msk): for any other
-   selection the unchanged code returns something else — known finding F-C04-PD-SUBMATRIX,
-   SpecTest.inverse_pd_submatrix_refuted. *)
+   L * L^T = m.  This is the statement about Model.m_inverse, the model of the code BEFORE 8a0efbb (kept:
+   other properties import it; it agrees with HEAD when no Submatrix option is given), which is only
+   right for a LEADING BLOCK (prefix_mask n q msk).  For /repo HEAD see
+   matrix_inverse_positive_definite_correct_every_mask below. *)
 Theorem matrix_inverse_positive_definite_correct :
   forall (K : fld) (n : nat) (msk : list bool) (dense : bool) (q : nat) (m L R : list (list K)),
     lower_tri K n L -> diag_nonzero K n L ->
@@ -430,3 +432,108 @@ Theorem determinant_alternating_adjacent_rows :
     (forall j, j < n -> mget (NumK K) a i j = mget (NumK K) a (S i) j) ->
     det_naive (NumK K) n a = f0 K.
 Proof. intros. rewrite det_naive_laplace by lia. apply (det_adjacent_rows_equal K i); auto. Qed.
+
+(* ==================================================================== round 3: /repo HEAD after 175f3f7, 8a0efbb *)
+
+(* ---- (3'') PositiveDefinite + Submatrix for EVERY mask (Model2.m_inverse_v2) ----
+   At HEAD the matrix is masked to the identity outside the selection S before the Cholesky step:
+   M = masked m (M[i,j] = m[i,j] for i,j in S, identity entries elsewhere).  HYPOTHESES about the
+   Cholesky factor of M (the subject of C05): L lower triangular, non-zero diagonal, L * L^T = M.
+   CONCLUSION: the full contract of the inverse — R is a two-sided inverse of the selected block of m,
+   rows outside S are identity rows, entries (selected row, unselected column) are zero — for every
+   n, every mask (no prefix hypothesis), every field. *)
+Theorem matrix_inverse_positive_definite_correct_every_mask :
+  forall (K : fld) (n : nat) (msk : list bool) (dense : bool) (m L R : list (list K)),
+    wf_mat K n m ->
+    lower_tri K n L -> diag_nonzero K n L ->
+    (forall i j, i < n -> j < n ->
+        sumL K (seq 0 n) (fun k => fmul K (mget (NumK K) L i k) (mget (NumK K) L j k))
+        = mget (NumK K) (masked (NumK K) n msk m) i j) ->
+    cholesky (NumK K) n (masked (NumK K) n msk m) (zmat (NumK K) n) = Ok L ->
+    m_inverse_v2 (NumK K) dense InvPD n (Some msk) m = Ok R ->
+    inv_spec K n msk m R.
+Proof. exact inverse_pd_every_mask. Qed.
+
+(* the hypotheses are satisfiable by a selection that is NOT a leading block: {1,2} of a 3x3 matrix over Qc *)
+Example matrix_inverse_positive_definite_every_mask_nontrivial :
+  wf_mat QcK 3 Mpd /\ lower_tri QcK 3 Lpd /\ diag_nonzero QcK 3 Lpd /\
+  (forall i j, i < 3 -> j < 3 ->
+     sumL QcK (seq 0 3) (fun k => fmul QcK (mget (NumK QcK) Lpd i k) (mget (NumK QcK) Lpd j k))
+     = mget (NumK QcK) (masked (NumK QcK) 3 [false;true;true] Mpd) i j) /\
+  (exists L, cholesky (NumK QcK) 3 (masked (NumK QcK) 3 [false;true;true] Mpd) (zmat (NumK QcK) 3) = Ok L /\
+             map (map Qcanon.this) L = map (map Qcanon.this) Lpd) /\
+  (exists R, m_inverse_v2 (NumK QcK) true InvPD 3 (Some [false;true;true]) Mpd = Ok R /\
+             map (map Qcanon.this) R = map (map Qcanon.this) (qc [[1;0;0];[0;5;-2];[0;-2;1]]%Z)).
+Proof. exact pd_instance. Qed.
+
+(* the block-diagonal argument, both directions.  (=>) any factor L of the masked matrix is block
+   diagonal w.r.t. (S, complement): every off-diagonal entry with an unselected row or column index
+   vanishes, hence the selected block of m is factorised by the selected block of L ... *)
+Theorem masked_cholesky_factor_is_block_diagonal :
+  forall (K : fld) (n : nat) (msk : list bool) (m L : list (list K)),
+    lower_tri K n L -> diag_nonzero K n L ->
+    (forall i j, i < n -> j < n ->
+        sumL K (seq 0 n) (fun k => fmul K (mget (NumK K) L i k) (mget (NumK K) L j k))
+        = mget (NumK K) (masked (NumK K) n msk m) i j) ->
+    (forall i k, i < n -> k < n -> i <> k -> sel msk i = false \/ sel msk k = false -> mget (NumK K) L i k = f0 K) /\
+    (forall i j, In i (idxs msk 0 n) -> In j (idxs msk 0 n) ->
+        mget (NumK K) m i j = sumL K (idxs msk 0 n) (fun k => fmul K (mget (NumK K) L i k) (mget (NumK K) L j k))).
+Proof.
+  intros K n msk m L HLT HD HLL. split.
+  - exact (L_block K n msk m L HLT HD HLL).
+  - exact (block_factor K n msk m L HLT HD HLL).
+Qed.
+
+(* ... (<=) and every factorisation Ls Ls^T of the selected block extends (by the identity outside S)
+   to a factorisation of the masked matrix: the masked matrix has a Cholesky-type factorisation iff
+   the selected block has one *)
+Theorem masked_matrix_factorisation_extends :
+  forall (K : fld) (n : nat) (msk : list bool) (m Ls : list (list K)),
+    (forall i j, In i (idxs msk 0 n) -> In j (idxs msk 0 n) ->
+        mget (NumK K) m i j = sumL K (idxs msk 0 n) (fun k => fmul K (mget (NumK K) Ls i k) (mget (NumK K) Ls j k))) ->
+    let Lx := fun i k => if (sel msk i && sel msk k)%bool then mget (NumK K) Ls i k else delta K i k in
+    forall i j, i < n -> j < n ->
+      sumL K (seq 0 n) (fun k => fmul K (Lx i k) (Lx j k)) = mget (NumK K) (masked (NumK K) n msk m) i j.
+Proof. exact masked_factor_extends. Qed.
+
+(* ---- (2') back substitution with caller-supplied buffers (HEAD: A is copied into InSitu.A) ----
+   R * x = b whatever a well-shaped InSitu.A / InSitu.X held before *)
+Theorem back_substitution_insitu_correct :
+  forall (K : fld) (n : nat) (R : list (list K)) (b : list K) (buf : option (list (list K))) (x0 : list K),
+    wf_mat K n R -> (forall bf, buf = Some bf -> wf_mat K n bf) ->
+    upper_tri K n R -> diag_nonzero K n R -> length x0 = n ->
+    forall i, i < n -> mulSv K (seq 0 n) R (backsub_run_v2 (NumK K) n R (Some b) buf x0) i = vget (NumK K) b i.
+Proof. exact backsub_insitu_correct. Qed.
+
+(* ---- (6) HISTORY INDEPENDENCE: the routines are pure functions of their arguments ----
+   For EVERY carrier (binary64 and binary32 floats included; no arithmetic law is used), the result
+   does not depend on the prior content of well-shaped caller-supplied buffers ... *)
+Theorem back_substitution_buffer_independent :
+  forall (A : Type) (N : Num A) (n : nat) (Am : list (list A)) (b : option (list A))
+         (buf : option (list (list A))) (x0 x0' : list A),
+    wfm n Am -> (forall bf, buf = Some bf -> wfm n bf) -> length x0 = n -> length x0' = n ->
+    backsub_run_v2 N n Am b buf x0 = backsub_run_v2 N n Am b None x0'.
+Proof. exact @backsub_run_v2_indep. Qed.
+
+(* (InSitu.Id, InSitu.A, InSitu.B of matrixInverse, all three modes, with or without Submatrix;
+   wf_inv_bufs excludes a caller-supplied Cholesky.L: see history_independence) *)
+Theorem matrix_inverse_buffer_independent :
+  forall (A : Type) (N : Num A) (dense : bool) (mode : inv_mode) (n : nat) (omsk : option (list bool))
+         (bf : inv_bufs (A:=A)) (m : list (list A)),
+    wfm n m -> wf_inv_bufs n bf ->
+    m_inverse_insitu N dense mode n omsk bf m = m_inverse_v2 N dense mode n omsk m.
+Proof. exact @m_inverse_insitu_indep. Qed.
+
+(* ... hence not on the HISTORY of calls.  A history: the calls cs (inverse in any mode, solve, back
+   substitution, determinant naive / PD / LogScale, any mix) are made one after the other; before each
+   call an adversarial environment fills the caller's buffers with anything well-shaped, as a function
+   of all results returned so far.  Every result equals that of the same call made FIRST, without
+   buffers.  The model has no other state (no package-level variables): this is the statement the tie
+   tests on the implementation with sequences of calls of different element types and routines in one
+   process.  (Cholesky.L buffers are outside this theorem — exec passes none; the tie supplies dirty ones.) *)
+Theorem history_independence :
+  forall (A : Type) (N : Num A) (lg : A -> A) (n : nat) (env : list (result (A:=A)) -> hbufs (A:=A)),
+    (forall past, wf_hbufs n (env past)) ->
+    forall (cs : list (call (A:=A))) (past : list (result (A:=A))), Forall (wf_call n) cs ->
+      run_hist N lg n env past cs = map (exec N lg n (fresh (A:=A))) cs.
+Proof. exact @run_hist_indep. Qed.
